@@ -3,6 +3,9 @@ package node
 import (
 	"encoding/json"
 	"fmt"
+	"github.com/cosmos/cosmos-sdk/baseapp"
+	"github.com/cosmos/cosmos-sdk/store"
+	storetypes "github.com/cosmos/cosmos-sdk/store/types"
 	"math/rand"
 	"sort"
 	"time"
@@ -138,8 +141,50 @@ func mustJSON(v interface{}) []byte {
 
 // NewApp builds an application object over db (loadLatest semantics of a node start).
 func NewApp(db dbm.DB) *app.Teleport {
+	return NewAppVariant(db, 0)
+}
+
+// appOptions is a node operator's local configuration (app.toml / command-line flags).
+type appOptions map[string]interface{}
+
+func (o appOptions) Get(k string) interface{} { return o[k] }
+
+// NodeConfigs names the node-local configurations NewAppVariant knows (index 0: the one every world's main
+// instance runs with). Each groups settings that are documented as local to a node - and therefore must
+// not influence what a block does - narrowly enough that a divergence names its cause.
+var NodeConfigs = []string{"default", "rpc_caps", "tracer_access_list", "baseapp_options", "services_and_home"}
+
+// NewAppVariant builds an instance the way a node operator with another local configuration would.
+func NewAppVariant(db dbm.DB, variant int) *app.Teleport {
 	enc := encoding.MakeConfig(app.ModuleBasics)
-	return app.NewTeleport(log.NewNopLogger(), db, nil, true, map[int64]bool{}, "/nonexistent-tsim-home", 0, enc, simapp.EmptyAppOptions{})
+	opts := appOptions{}
+	var bopts []func(*baseapp.BaseApp)
+	home := "/nonexistent-tsim-home"
+	switch NodeConfigs[variant%len(NodeConfigs)] {
+	case "default":
+		return app.NewTeleport(log.NewNopLogger(), db, nil, true, map[int64]bool{}, home, 0, enc, simapp.EmptyAppOptions{})
+	case "rpc_caps":
+		// JSON-RPC limits: documented as bounding eth_call / eth_estimateGas / filters only
+		opts["json-rpc.gas-cap"] = uint64(60_000)
+		opts["json-rpc.evm-timeout"] = "1ns"
+		opts["json-rpc.txfee-cap"] = float64(0.0001)
+		opts["json-rpc.filter-cap"] = int32(1)
+		opts["json-rpc.logs-cap"] = int32(1)
+		opts["json-rpc.block-range-cap"] = int32(1)
+		opts["evm.max-tx-gas-wanted"] = uint64(50_000)
+	case "tracer_access_list":
+		opts["evm.tracer"] = "access_list"
+	case "baseapp_options":
+		bopts = append(bopts, baseapp.SetMinGasPrices("7"+Denom), baseapp.SetPruning(storetypes.PruneEverything),
+			baseapp.SetInterBlockCache(store.NewCommitKVStoreCacheManager()), baseapp.SetMinRetainBlocks(1), baseapp.SetTrace(true))
+	default:
+		opts["json-rpc.enable"] = true
+		opts["api.enable"] = true
+		opts["grpc.enable"] = true
+		opts["telemetry.enabled"] = true
+		home = "/var/tmp"
+	}
+	return app.NewTeleport(log.NewNopLogger(), db, nil, true, map[int64]bool{}, home, 0, enc, opts, bopts...)
 }
 
 // BuildGenesis creates the InitChain request for cfg.
